@@ -685,6 +685,12 @@ class ValueAccSpec(SamplerSpec):
       return dict(tuple=canon(list(r)))
     return dict(single=canon(r))
 
+  def textbook(self, cfg, b):
+    if cfg['concat']:
+      return super().textbook(cfg, b)
+    # no concat_fn: the accumulated items are the fed objects themselves (here: one batch = one item)
+    return dict(single=[list(b[0])]) if cfg['k'] == 1 else dict(tuple=[[list(c)] for c in b])
+
 
 # ---- FixedSizeSample
 
@@ -836,6 +842,9 @@ def model_prog(case):
         if 'rng' in op:
           m['rng'] = op['rng'][n]
         prog.append(m)
+    elif op['op'] == 'call' and case.get('api') == 'aggfn':
+      # AggregateFn.__call__ = get_result(update_state(create_state(), batch))  (base.py:160-164)
+      prog += [dict(op='make', acc=999), dict(op='add', acc=999, batch=op['batch']), dict(op='result', acc=999)]
     else:
       prog.append(op)
   return dict(model='aggrolling', metric=spec.model, cfg=spec.model_cfg(case['cfg']), prog=prog)
@@ -938,18 +947,20 @@ def finding_class(case, what=''):
   m = case['metric']
   prog = case.get('prog', [])
   if m in ('meanvar', 'var'):
-    bs = [b for b in _mv_batches(case) if b['dim'] == 2 and b['rows']]
+    bs = [b for b in _mv_batches(case) if b['dim'] == 2]
     if bs:
       k = bs[0]['k']
       valid = [[any(r[j] != NAN for r in b['rows']) for j in range(k)] for b in bs]
       if all(not any(v) for v in valid):
-        return 'F24'       # 2-D data without a single non-NaN entry: accumulator stays scalar
+        return 'F24'       # 2-D data without a single non-NaN entry (or no row): accumulator stays scalar
+      bs = [b for b in bs if b['rows']]
+      valid = [[any(r[j] != NAN for r in b['rows']) for j in range(k)] for b in bs]
       for j in range(k):
         col = [v[j] for v in valid]
         if any(col) and not all(col) and len(bs) > 1:
           return 'F2'      # a column all-NaN in one state but not in another
   if m == 'mean':
-    bs = [b for b in _mv_batches(case) if b['dim'] == 2 and b['rows']]
+    bs = [b for b in _mv_batches(case) if b['dim'] == 2]
     if bs and all(all(x == NAN for r in b['rows'] for x in r) for b in bs):
       return 'F24'
   if m == 'fss' and any(op['op'] in ('merge', 'merge_states') for op in prog):
@@ -1173,14 +1184,13 @@ class C11:
       else:
         i, j = rng.sample(range(n), 2)
         op = dict(op='merge', acc=i, other=j)
+        if j in fed:
+          fed.add(i)
       if spec.order == 'reservoir':
         op['rng'] = rng_draws(rng)
       prog.append(op)
-      if spec.name == 'valueacc':     # result() of a never-updated ValueAccumulator raises (not observed here)
-        reads = sorted(fed | {o['acc'] for o in prog if o['op'] == 'merge' and o['other'] in fed})
-        fed |= set(reads)
-      else:
-        reads = range(n)
+      # result() of a never-updated ValueAccumulator raises IndexError: not read here
+      reads = sorted(fed) if spec.name == 'valueacc' else range(n)
       prog += [result_op(k) for k in reads]
     prog += [result_op(k) for k in (sorted(fed) if spec.name == 'valueacc' else range(n))]
     return dict(metric=spec.name, cfg=cfg, kind='frame', naccs=n, prog=prog)
@@ -1361,6 +1371,8 @@ class C07:
       data = spec.gen_batch(rng, cfg, n)
       n = spec.size(data)
       cuts = sorted(rng.sample(range(1, n), min(rng.randint(0, 3), n - 1))) if n > 1 else []
+      if spec.name == 'valueacc' and not cfg['concat']:
+        cuts = []
       api = 'aggfn' if (spec.has_aggfn and rng.random() < 0.4) else 'object'
       ctx.count('C07 rolling metric', spec.name)
       yield C07.make_case(spec, cfg, data, cuts, api)
@@ -1385,14 +1397,18 @@ class C07:
 
   @staticmethod
   def model_requests(case):
-    return [model_prog(case)]
+    reqs = [model_prog(case)]
+    if case['metric'] == 'meanvar':
+      # the five functions are `MeanAndVariance().add(batch).<field>`; add() returns new(batch) (FnApi in the model)
+      reqs.append(model_prog(dict(metric='meanvar', cfg=case['cfg'], prog=[dict(op='call', batch=case['data'])])))
+    return reqs
 
   @staticmethod
   def model_obs(case, resps):
     out = [o for o in model_out(case, resps[0]) if o is not None]
     res = dict(results=out)
     if case['metric'] == 'meanvar':
-      res['function_api'] = out[-1]      # the functions are `MeanAndVariance().add(batch).<field>` = new(batch)
+      res['function_api'] = model_out(case, resps[1])[0]
     return res
 
   @staticmethod
